@@ -37,7 +37,13 @@ def plain_impl(pkts):
     tr.write.side_effect = lambda d: writes.append(bytes(d))
     h.connection_made(tr)
     h.write_packets(pkts, False)
-    return writes
+    first = list(writes)
+    # the same batch with debug logging on: what reaches the transport must not depend on it
+    del writes[:]
+    h.write_packets(pkts, True)
+    if writes != first:
+        return first + writes      # more than one write for "one batch": reported by the caller
+    return first
 
 
 def noise_session(rng, calls, name=b"dev"):
